@@ -536,3 +536,46 @@ Proof. exact (conj colons_example ipv6_texts). Qed.
    characters (so the premises of C16_rt_parsed hold for Host.host_parse idna_clean / Host.host_display) *)
 Example C16_premises_hold_3 : C09_Host.IdnaOK idna_clean.
 Proof. exact idna_clean_ok. Qed.
+
+(* ---- appended block (task idna7): the Unicode half at host level ---- *)
+From RU Require Import Base.U32_c13 Model.Punycode Model.Uts46 Proofs.Idna_Known Proofs.Idna_Hyp Proofs.Idna_C10_Inner
+  Proofs.Idna_C10b_Long Proofs.Idna_C10b_Stmt Proofs.Idna_WalkEnc Proofs.Idna_C10c_Drun Proofs.Idna_C12c_Stmt4
+  Proofs.Idna_C12d_Round Proofs.Idna_C12d_Stmt5 Proofs.C09_InstIdna Proofs.C16_UniHost.
+
+(* the premise `hp (tu d) = Ok h` of C16_rt_parsed_unicode for the host model linked with the IDNA model and the
+   ToUnicode model, non-ASCII Unicode forms included: Host::parse reads the Unicode form of a domain it returned back as
+   that domain.  Relative to the eight sampled adapter facts of C12_5, outside Known_C12 / Known_C10_long, and to the
+   explicit premises (P1) ToUnicode at the EMPTY deny list (origin.rs) = ToUnicode at the URL deny list (host.rs) on d,
+   (P2) no '%' in the Unicode form and no leading '['.  See theorem_notes in tools/props_d/C16.py *)
+Theorem C16_unicode_host : forall A cfg,
+  AdapterOK A -> AdapterUSV A -> NvNoTrunc A -> NvIdem A -> AsciiNoMark A -> MapPrefix A -> NvMapFix A -> NvNoGrow A ->
+  forall d b, Forall (fun c => c < 128) d -> to_ascii A cfg d DENY_URL HAllow DIgnore = U32_c13.Ok (b, d) ->
+  Known_C12 A cfg d DENY_URL HAllow = false -> Known_C10_long d = false ->
+  d <> [] -> Host.ends_in_a_number d = false ->
+  let t := ui_text (domain_to_unicode A cfg d) in
+  ui_text (to_unicode A cfg d DENY_EMPTY HAllow) = ui_text (to_unicode A cfg d DENY_URL HAllow) ->
+  ~ In 37 (utf8_encode t) -> Host.starts_with 91 t = false ->
+  Host.host_parse (idna_of A cfg) t = HostT.Ok (HDomain d).
+Proof. exact uni_host_rt_origin. Qed.
+Check C16_unicode_host : forall A cfg,
+  AdapterOK A -> AdapterUSV A -> NvNoTrunc A -> NvIdem A -> AsciiNoMark A -> MapPrefix A -> NvMapFix A -> NvNoGrow A ->
+  forall d b, Forall (fun c => c < 128) d -> to_ascii A cfg d DENY_URL HAllow DIgnore = U32_c13.Ok (b, d) ->
+  Known_C12 A cfg d DENY_URL HAllow = false -> Known_C10_long d = false ->
+  d <> [] -> Host.ends_in_a_number d = false ->
+  let t := ui_text (domain_to_unicode A cfg d) in
+  ui_text (to_unicode A cfg d DENY_EMPTY HAllow) = ui_text (to_unicode A cfg d DENY_URL HAllow) ->
+  ~ In 37 (utf8_encode t) -> Host.starts_with 91 t = false ->
+  Host.host_parse (idna_of A cfg) t = HostT.Ok (HDomain d).
+Print Assumptions C16_unicode_host.
+
+Example C16_unicode_host_premises_hold :
+  (AdapterOK lowsan4 /\ AdapterUSV lowsan4 /\ NvNoTrunc lowsan4 /\ NvIdem lowsan4 /\ AsciiNoMark lowsan4 /\ MapPrefix lowsan4 /\
+   NvMapFix lowsan4 /\ NvNoGrow lowsan4) /\
+  to_ascii lowsan4 true W_stmt5_A DENY_URL HAllow DIgnore = U32_c13.Ok (true, W_stmt5_A) /\
+  Known_C12 lowsan4 true W_stmt5_A DENY_URL HAllow = false /\ Known_C10_long W_stmt5_A = false /\
+  Host.ends_in_a_number W_stmt5_A = false /\
+  ui_text (domain_to_unicode lowsan4 true W_stmt5_A) = W_stmt5_U /\
+  ui_text (to_unicode lowsan4 true W_stmt5_A DENY_EMPTY HAllow) = ui_text (to_unicode lowsan4 true W_stmt5_A DENY_URL HAllow) /\
+  existsb (N.eqb 37) (utf8_encode W_stmt5_U) = false /\ Host.starts_with 91 W_stmt5_U = false /\
+  Host.host_parse (idna_of lowsan4 true) W_stmt5_U = HostT.Ok (HDomain W_stmt5_A).
+Proof. split; [exact lowsan4_premises5|exact uni_host_example]. Qed.
